@@ -522,8 +522,51 @@ func reconcileRule() string {
 			}
 			e = d
 		}
+		// a named filter (function of the package, or a local closure variable): read its body
+		var bodies []ast.Node
+		var collect func(n ast.Node, depth int)
+		collect = func(n ast.Node, depth int) {
+			ast.Inspect(n, func(x ast.Node) bool {
+				c, ok := x.(*ast.CallExpr)
+				if !ok {
+					return true
+				}
+				// a helper of the package that builds the set (tasks.onlyActive() ..): read its body too
+				if cand := pkg.callee(c, "Manager"); cand != nil && depth < 2 && cand != dk {
+					if sel, ok := c.Fun.(*ast.SelectorExpr); !ok || !(sel.Sel.Name == "Filtered" || sel.Sel.Name == "filtered" || sel.Sel.Name == "Contains") {
+						bodies = append(bodies, cand.Body)
+						collect(cand.Body, depth+1)
+					}
+				}
+				return true
+			})
+		}
+		collect(e, 0)
+		for _, extra := range append([]ast.Node{e}, bodies...) {
+			ast.Inspect(extra, func(x ast.Node) bool {
+				c, ok := x.(*ast.CallExpr)
+				if !ok || len(c.Args) != 1 {
+					return true
+				}
+				if sel, ok := c.Fun.(*ast.SelectorExpr); !ok || !(sel.Sel.Name == "Filtered" || sel.Sel.Name == "filtered") {
+					return true
+				}
+				if id, ok := c.Args[0].(*ast.Ident); ok {
+					if d, ok := dkDefs[id.Name]; ok {
+						bodies = append(bodies, d)
+					} else {
+						for _, fd := range pkg.funcs[id.Name] {
+							if fd.Recv == nil {
+								bodies = append(bodies, fd.Body)
+							}
+						}
+					}
+				}
+				return true
+			})
+		}
 		res := ""
-		ast.Inspect(e, func(x ast.Node) bool {
+		scan := func(x ast.Node) bool {
 			b, ok := x.(*ast.BinaryExpr)
 			if !ok || (b.Op != token.EQL && b.Op != token.NEQ) {
 				return true
@@ -538,7 +581,11 @@ func reconcileRule() string {
 				}
 			}
 			return true
-		})
+		}
+		ast.Inspect(e, scan)
+		for _, bd := range bodies {
+			ast.Inspect(bd, scan)
+		}
 		return res
 	}
 	ast.Inspect(dk.Body, func(x ast.Node) bool {
@@ -613,10 +660,22 @@ func reconcileRule() string {
 		})
 		ast.Inspect(dk.Body, func(x ast.Node) bool {
 			if c, ok := x.(*ast.CallExpr); ok {
+				writes := false
 				if sel, ok := c.Fun.(*ast.SelectorExpr); ok && sel.Sel.Name == "updateTasks" && strings.Contains(rcSrc(sel.X), "roster") {
-					if firstKill != token.NoPos && c.Pos() > loopStart {
-						writesBackSnapshot = true
-					}
+					writes = true
+				} else if cand := pkg.callee(c, "Manager"); cand != nil && cand != dk {
+					// a helper of the package that writes a whole task list to the roster (dropFromRoster ..)
+					ast.Inspect(cand.Body, func(y ast.Node) bool {
+						if cc, ok := y.(*ast.CallExpr); ok {
+							if s2, ok := cc.Fun.(*ast.SelectorExpr); ok && s2.Sel.Name == "updateTasks" && strings.Contains(rcSrc(s2.X), "roster") {
+								writes = true
+							}
+						}
+						return true
+					})
+				}
+				if writes && firstKill != token.NoPos && c.Pos() > loopStart {
+					writesBackSnapshot = true
 				}
 			}
 			return true
